@@ -23,7 +23,7 @@ PAIRS = {
 }
 EDITS = ["channels", "unit", "input_type", "loop_radius", "offset_value", "offset_property", "angle", "bearing",
          "waveform", "timing_mark", "components", "reopen", "copy", "copy_cross", "copy_of_copy", "copy_extent",
-         "edit_copy", "edit_copy", "refused_link"]
+         "edit_copy", "edit_copy", "refused_link", "relink", "refused_metadata"]
 
 
 def op_strategy():
@@ -61,6 +61,9 @@ class C20(Check):
              {"op": "edit_copy", "side": "A", "v": [1, 5, 6]}],
             [{"op": "reopen", "side": "A", "v": [2]}, {"op": "unit", "side": "B", "v": [1]}, {"op": "channels", "side": "A", "v": [3, 4]}],
             [{"op": "refused_link", "side": "A", "v": [1]}, {"op": "unit", "side": "A", "v": [3]}, {"op": "reopen", "side": "A", "v": [1]}],
+            [{"op": "relink", "side": "A", "v": [1]}, {"op": "unit", "side": "B", "v": [2]}, {"op": "reopen", "side": "A", "v": [1]}],
+            [{"op": "refused_metadata", "side": "A", "v": [1]}, {"op": "refused_metadata", "side": "B", "v": [1]},
+             {"op": "reopen", "side": "A", "v": [1]}],
         ]
         for pair, direction, ops in itertools.product(PAIRS, ["A", "B"], fixed):
             for resolve in (True, False):
@@ -263,6 +266,50 @@ class C20(Check):
                         return res
                     res.label("op:refused_link")
                     if not self.check_pair(res, ws, a, b, pair, "live", "refused_link", partners=True):
+                        return res
+                    continue
+                if name == "relink":
+                    # the entity, already linked (and its partner resolved), is linked to ANOTHER partner of the same
+                    # class: from then on the new pair has to satisfy everything the statement says about a pair
+                    if family not in ("em", "tipper"):
+                        continue  # large-loop / direct-current pairs need matching id properties: not generated
+                    try:
+                        new_a, new_b = self.build(ws, pair, p["n"])
+                    except Exception:
+                        continue
+                    fresh, spare = (new_b, new_a) if op["side"] == "A" else (new_a, new_b)
+                    ws.remove_entity(spare)
+                    del spare, new_a, new_b
+                    attr = a_to_b if op["side"] == "A" else b_to_a
+                    try:
+                        setattr(target, attr, fresh)
+                    except Exception as exc:
+                        res.label(f"relink:refused:{type(exc).__name__}")
+                        return res
+                    res.label("op:relink")
+                    if op["side"] == "A":
+                        b, uid_b = fresh, fresh.uid
+                    else:
+                        a, uid_a = fresh, fresh.uid
+                    del fresh
+                    if not self.check_pair(res, ws, a, b, pair, "live", "relink", partners=True):
+                        return res
+                    continue
+                if name == "refused_metadata":
+                    # metadata naming a partner that is not in the workspace must be refused and change nothing
+                    if family != "dc":
+                        continue
+                    bogus = uuid.UUID(int=987654321 + op["v"][0], version=4)
+                    try:
+                        target.metadata = {"Current Electrodes": bogus, "Potential Electrodes": bogus}
+                        refused = False
+                    except Exception:
+                        refused = True
+                    if not refused:
+                        res.label("refused_metadata:accepted")
+                        return res
+                    res.label("op:refused_metadata")
+                    if not self.check_pair(res, ws, a, b, pair, "live", "refused_metadata", partners=True):
                         return res
                     continue
                 if name == "edit_copy":
